@@ -424,7 +424,7 @@ def _p_shapes(blocks, st, top):
     return "".join(out)
 
 
-_P_NS = f'xmlns:a="{A}" xmlns:r="{R}" xmlns:p="{P}" xmlns:m="http://schemas.openxmlformats.org/officeDocument/2006/math"'
+_P_NS = f'xmlns:a="{A}" xmlns:r="{R}" xmlns:p="{P}" xmlns:m="http://schemas.openxmlformats.org/officeDocument/2006/math" xmlns:w="http://schemas.openxmlformats.org/wordprocessingml/2006/main"'
 
 
 def render_pptx(doc, *, images=None, opts=None) -> bytes:
